@@ -34,6 +34,15 @@ def queries(tier, seed=0):
             d['fully_obs'] = True
             d['flat_obs'] = False
             extra.append(d)
+    # the cost the scenario defines must be charged whichever way the action is passed in:
+    # by flat index and by parameter vector (decoded by the real action spaces)
+    for q in qs:
+        if q['shape']['sizes'] == [2, 1] and q.get('os') is None and q['kind'] != 'noop' \
+           and q['target'] == [1, 0]:
+            for dec in ('flat', 'param'):
+                d = dict(q)
+                d['decode'] = dec
+                extra.append(d)
     return qs + extra
 
 
